@@ -1008,10 +1008,11 @@ class VarsManager(object):
                 )
         else:
             ret = method(f2, np.array(x0), **mini_kwargs)
-        self.set_all(ret.x, val_in_fit=True)
+        x_fit = ret.x  # the point in the coordinates used while fitting
+        self.set_all(x_fit, val_in_fit=True)
         ret.x = np.array(self.get_all_val())
         if isinstance(ret.hess_inv, np.ndarray):
-            ret.hess_inv = self.trans_error_matrix(ret.hess_inv, ret.x)
+            ret.hess_inv = self.trans_error_matrix(ret.hess_inv, x_fit)
         else:
             ret.hess_inv = None
         return ret
@@ -1044,11 +1045,10 @@ class VarsManager(object):
                 del tape0
                 return float(y), np.array([float(i) for i in g]), np.array(hs)
 
+            # second derivatives with respect to the variables themselves,
+            # i.e. already in the physical parameters: no bound Jacobian
             _, _, hess = f(fit_result.x)
-            hess_inv = np.linalg.inv(hess)
-            fit_result.hess_inv = self.trans_error_matrix(
-                hess_inv, fit_result.x
-            )
+            fit_result.hess_inv = np.linalg.inv(hess)
         x_error = np.sqrt(np.diag(fit_result.hess_inv))
         return x_error
 
